@@ -27,7 +27,7 @@ asn1f_fetch_tags_impl(arg_t *arg, struct asn1p_type_tag_s **tags, int count, int
 	asn1p_expr_t *expr = arg->expr;
 
 	DEBUG("Fetching tag from %s: meta %d, type %s", expr->Identifier,
-		expr->meta_type, expr->expr_type);
+		expr->meta_type, ASN_EXPR_TYPE2STR(expr->expr_type));
 
 	/* If this type is tagged, add this tag first */
 	if(expr->tag.tag_class != TC_NOCLASS)
